@@ -68,7 +68,11 @@ type astLoop struct {
 	node     ast.Node
 	key      string
 	ordinal  int
-	pos, end token.Pos
+	// generic key: "range *" / "for *" with the ordinal among the loops of that kind in the
+	// function (source order). A contract keyed this way survives edits of the loop's operand.
+	kindKey     string
+	kindOrdinal int
+	pos, end    token.Pos
 }
 
 func (e *Engine) astLoops(top *ssa.Function) []*astLoop {
@@ -87,11 +91,13 @@ func (e *Engine) astLoops(top *ssa.Function) []*astLoop {
 					key = "for " + e.nodeText(s.Cond)
 				}
 				counts[key]++
-				out = append(out, &astLoop{node: s, key: key, ordinal: counts[key], pos: s.Pos(), end: s.End()})
+				counts["for *"]++
+				out = append(out, &astLoop{node: s, key: key, ordinal: counts[key], kindKey: "for *", kindOrdinal: counts["for *"], pos: s.Pos(), end: s.End()})
 			case *ast.RangeStmt:
 				key := "range " + e.nodeText(s.X)
 				counts[key]++
-				out = append(out, &astLoop{node: s, key: key, ordinal: counts[key], pos: s.Pos(), end: s.End()})
+				counts["range *"]++
+				out = append(out, &astLoop{node: s, key: key, ordinal: counts[key], kindKey: "range *", kindOrdinal: counts["range *"], pos: s.Pos(), end: s.End()})
 			}
 			return true
 		})
@@ -154,6 +160,12 @@ func (fv *FuncVer) loopSpec(fn *ssa.Function, li *loopInfo) (*LoopSpec, string) 
 		for _, ls := range blk.Loops {
 			if ls.Key == key && ls.Ordinal == best.ordinal {
 				return ls, full
+			}
+		}
+		for _, ls := range blk.Loops {
+			if ls.Key == best.kindKey && ls.Ordinal == best.kindOrdinal {
+				// obligations of a generically keyed loop are named by that key
+				return ls, fmt.Sprintf("%s#%d", best.kindKey, best.kindOrdinal)
 			}
 		}
 	}
